@@ -49,7 +49,10 @@ class C06(Monitor):
             return
         if f.sid == 0:
             return      # connection-level frames: C03 / C11 / C26
-        v = rules.frame_verdict(trk, s.snap, pre, f, client, self.knob)
+        # streams that a refused call closed inside the library (open finding F-POISON) take up places in its memory of
+        # closed streams without ever closing on the wire: the bound used for 'certainly remembered' shrinks by them
+        knob = self.knob - sum(1 for x in self.fsm_refused[s.ep] if x != 'conn')
+        v = rules.frame_verdict(trk, s.snap, pre, f, client, knob)
         if f.type in (C.HEADERS, C.PUSH_PROMISE):
             if f.block_frames is None or f.hpack_error or f.headers is None:
                 return
@@ -132,7 +135,7 @@ class C06(Monitor):
                         # was reset, a STREAM_CLOSED connection error if it ended normally, else PROTOCOL_ERROR
                         pp = (s.pre_promised or [None])[0]
                         if conformant(wire, 'request') is not None or (pp is not None and pp.state == 'closed' and
-                                                                       rules.maybe_forgotten(trk, pp, self.knob)):
+                                                                       rules.maybe_forgotten(trk, pp, knob)):
                             v = rules.either(('conn', P), ('stream', P), ('stream', C.STREAM_CLOSED), ('conn', C.STREAM_CLOSED))
                         elif not p or p % 2:
                             v = ('conn', P)         # not an id a server can promise at all
@@ -200,7 +203,8 @@ class C06(Monitor):
             return
         sid = a.get('sid')
         pre = s.pre.get(sid) if isinstance(sid, int) else None
-        cv = rules.call_verdict(trk, s.snap, pre, op, a, client, self.knob)
+        cv = rules.call_verdict(trk, s.snap, pre, op, a, client,
+                                self.knob - sum(1 for x in self.fsm_refused[s.ep] if x != 'conn'))
         if cv == 'either':
             return
         state = (pre.state + ('/' + pre.closed_by if pre.closed_by else '')) if pre is not None else 'none'
